@@ -27,7 +27,10 @@ Example ex_mid_ok : exists s0 s, init ex_desc = Ok s0 /\ run s0 (firstn 3 ex_ops
   /\ exclusive_ok (a_pools (s_alloc s0)) (s_live s) = true
   /\ conserved_ok (a_pools (s_alloc s0)) (a_pools (s_alloc s)) (s_live s) = true
   /\ mirror_ok (a_pools (s_alloc s)) (a_free (s_alloc s)) = true.
-Proof. vm_compute. do 2 eexists. repeat split; reflexivity. Qed.
+Proof.
+  eexists. eexists. split; [vm_compute; reflexivity|]. split; [vm_compute; reflexivity|].
+  repeat split; vm_compute; reflexivity.
+Qed.
 
 (** the scenario of corpus/alloc/strict-tiebreak-refusal.trace: groups of 2 and 6 indices, one index of the
     small group partly used; `tight! 2` is granted (it was refused before the fix of has_resources_for_request) *)
